@@ -90,6 +90,86 @@ _claim('C20',
        "nothing; logging calls themselves are assumed not to raise.",
        "typestate walk with exception outcomes and condition correlation; nullness summary; effect/purity scan")
 
+_claim('C02',
+       "C02.R1 homogeneity degrees (signal 1, options 0) through the whole call cone of get_next_imf / sift / mask_sift "
+       "(ratio modes) / get_next_imf_mask / get_mask_freqs with interprocedural summaries: every sum, comparison and "
+       "branch condition combines equal degrees, results have the expected degree, the absolute sift threshold is the "
+       "only accepted scale-dependent decision; C02.R2 negation conjugacy of the trough branch, identical options of the "
+       "two envelopes, SD / Rilling predicates invariant under the sign flip; C02.R3 two-sided padding, symmetric exit "
+       "test, symmetric strict extrema search, no direction-sensitive primitive in the cone.",
+       "bit-exactness for +-2^k; exact time-reversal equality of scipy's spline solvers; the guard band near thresholds.",
+       "abstract interpretation in a homogeneity-degree domain over evaluated paths; sibling comparison by substitution")
+_claim('C05',
+       "C05.R1 strict order-1 extrema search unfiltered on the default path; C05.R2 trough/peak conjugacy; C05.R3 aligned "
+       "two-array padding and exact exit test of the re-padding loop; C05.R4 integrality of the interpolation grid for "
+       "every option value (parabolic refinement makes locations real), same grid for evaluation and mask, mask "
+       "{t>=0, t<N}, length mismatch raises; C05.R5 method table; C05.R6 parabola constants over the rationals.",
+       "that odd reflection yields strictly increasing knots (trusted np.pad); spline values.",
+       "integrality domain with interprocedural summaries; normal-form comparison; literal evaluation over Q")
+_claim('C07',
+       "C07.R1 structural decoding of the masked-extraction result: mean over columns of (ordered concat of worker(X + "
+       "M[:,k])[0] - M) with the same M added and removed, M = amp*cos(2 pi z t + phi_k); C07.R2 phase grid, frequency "
+       "ladder, per-layer indexing, returned frequencies are the indexed array; C07.R3 ordered pool API and effect-free "
+       "worker cone; C07.R4 amplitude-mode table, zero amplitude gives a zero mask.",
+       "numerical closeness to an executable specification of the masking rule.",
+       "term decoding on evaluated paths + polynomial normal forms + pool effect summaries")
+_claim('C09',
+       "C09.R1 every return wraps the unwrapped phase with wrap_phase('2pi') == mod(ncycles*2pi); C09.R2 frequency is "
+       "freq_from_phase of the same unwrapped phase, freq_from_phase / phase_from_freq coefficients (product 1); "
+       "C09.R3 homogeneity degrees (0, 0, 1) for hilbert / nht / quad and the normalisation core of amplitude_normalise; "
+       "C09.R4 method table total on the documented literals.",
+       "the bulk of the behavioural statement: accuracy on sinusoids for any method, the effect of the smoothing window, "
+       "'%' landing exactly on 2pi.",
+       "def-use on evaluated terms + polynomial normal forms + homogeneity-degree domain")
+_claim('C10',
+       "C10.R1 class-by-class evaluation of row index, keep filter and value of hilberthuang and of the loop of "
+       "hilberthuang_1d over the digitize index classes (below / in(k) / at-last-edge / above / nan) for E = 2,3,5; "
+       "C10.R2 sibling agreement of the two maps; C10.R3 energy exponent, dense = toarray(sparse); C10.R4 bin definition; "
+       "C10.R5 dimension checks present, L1 library attributes resolve.",
+       "floating-point summation order of duplicate sparse entries.",
+       "finite abstract domain of digitize index classes with elementwise transfer functions")
+_claim('C11',
+       "C11.R1 fold/unfold arithmetic of holospectrum evaluated over every pair of digitize classes (E1 in {2,3}, E2 in "
+       "{2,4}): folded index fits the width, unfolds to [AM, carrier], the trim removes exactly the out-of-range classes; "
+       "C11.R2 squash table over the same accumulation; C11.R3 exponent and dimension checks; L1.",
+       "floating-point summation order.",
+       "finite abstract domain of index-class pairs + term decoding")
+_claim('C14',
+       "C14.R1 reducer argument is vals[where(label == i)] stored in slot i over range(max+1); C14.R2 NaN-initialised "
+       "projection written through the same lookup; C14.R3 phase_align uses one index set for phase and value, the bin "
+       "centres of define_hist_bins(0, 2pi, npoints), column = cycle; C14.R4 the bin loop of bin_by_phase covers every "
+       "allocated row (digitize classes for nbins = 2,3,5); L1.",
+       "interpolation error for non-linear profiles.",
+       "term decoding with inlined label lookups + digitize index classes")
+_claim('C15',
+       "C15.R1 comparator table by folding the parser's path conditions for 6 operators x 3 literal prefixes; C15.R2 "
+       "conjunction with the metric on the left; C15.R3 subset / chain counters; C15.R4 every metric store is guarded or "
+       "of cycle-level provenance; C15.R5 cache precondition (all-cycles unmasked vector, gap-free by C12.R1) and the "
+       "cache's own boundaries.",
+       "equality of arbitrary user functions under cache on/off; the full operation-history quantifier beyond 'each "
+       "operation preserves the store invariant'.",
+       "partial evaluation of path conditions on concrete strings + counter relations + C12 cover rule")
+_claim('C16',
+       "C16.R1 index-space typing of all 14 map_* functions (samples/cycles/subset/chains) against the level their name "
+       "promises; C16.R2 the -1 sentinel is never used or passed as an index unguarded, dead None-guards are reported; "
+       "C16.R3 squeeze followed by len; C16.R4 six projections NaN-initialised on the target level and written through "
+       "the matching map.",
+       "nothing numerical.",
+       "type checking in an index-space domain over evaluated paths")
+_claim('C17',
+       "C17.R1 the occurrence lookup returns index sets in the row space of its argument (a sorted copy has a different "
+       "index space); C17.R2 provenance and range guard of every final assignment, x/y index lists equal by "
+       "construction, K and the distance bound reach the query.",
+       "global injectivity of the greedy column-by-column assignment; K=1 (scipy returns 1-D arrays).",
+       "index-space typing + path conditions of the assignment stores")
+_claim('C19',
+       "C19.R1 the three ensure_* routines folded on 7 representative shapes against their documented contract; "
+       "C19.R2 canonicalisation precedes every other use of the signal; C19.R3 flow-sensitive interprocedural "
+       "alias/mutation analysis over every public function and method of the numeric modules; C19.R4 length checks "
+       "present and raising, L1; C19.R5 no mutable module state.",
+       "value equality beyond 'same canonical input'; read-only array flags.",
+       "shape-class evaluation of path conditions + alias/freshness/mutation dataflow with summaries")
+
 NOT_YET = "rules for this property are not built yet in this round; its check is fail-closed (exit 2), so it is not claimed"
 
 
